@@ -12,17 +12,17 @@ ID = "C01"
 LEVEL = "exploration"
 B = gkdi.B
 RULE = (
-    "complete product of: plaintext length {0,1,15,16,17,31,32,33,127,128,255,256,65535,65536,65537} (quick: 6 of them) x SID shape (n sub-authorities 1..15 x value pattern {all 0, all 2^32-1, mixed}; quick: 4 shapes) "
+    "complete product of: plaintext length {0,1,15,16,17,31,32,33,111,112,127,128,239,240,255,256,65519,65520,65535,65536,65537} (quick: 8 of them) x SID shape (n sub-authorities 1..15 x value pattern {all 0, all 2^32-1, mixed}; quick: 4 shapes) "
     "x key configuration (4 KDF hashes x {nonce, DH RFC5114, ECDH_P256, ECDH_P384}) x clock {mid-interval, first/last tick of an L2, L1, L0 interval} (quick: 4) x layout {in-envelope, trailing} x API {sync, async}. "
     "nonce mode: offline KeyCache with the root key; public-key mode: protect through the reference DC answering 'not authorised' (group public key only), unprotect with the offline cache. trailing layout: "
     "DPAPINGBlob.unpack(blob).pack(blob_in_envelope=False) fed back to unprotect. Oracle: unprotect(protect(x)) == x and the independent reference decryptor opens the same blob from the root key alone and the blob names the interval of the virtual clock. "
     "Every cell is distinct by construction; non-trivial = all (each runs protect, two unprotects and the reference decryptor)."
 )
 ASSUME = ["ref/cms.py + ref/gkdi.py calibrated on the 16 Windows vectors", "clock seam time.time_ns; DC with scripted security context for the public-key configurations"]
-BOUND = {"quick": "6 lengths x 4 SID shapes x 16 configs x 4 clocks x 2 layouts x 2 APIs", "thorough": "15 lengths x 45 SID shapes x 16 configs x 7 clocks x 2 x 2 (SID shapes cycled over the other dimensions for DH)"}
+BOUND = {"quick": "8 lengths x 4 SID shapes x 16 configs x 4 clocks x 2 layouts x 2 APIs", "thorough": "21 lengths x 45 SID shapes x 16 configs x 7 clocks x 2 x 2 (SID shapes cycled over the other dimensions for DH)"}
 
-LENS_T = [0, 1, 15, 16, 17, 31, 32, 33, 127, 128, 255, 256, 65535, 65536, 65537]
-LENS_Q = [0, 1, 16, 33, 256, 65537]
+LENS_T = [0, 1, 15, 16, 17, 31, 32, 33, 111, 112, 127, 128, 239, 240, 255, 256, 65519, 65520, 65535, 65536, 65537]  # incl. lengths whose ciphertext+tag (len+16) sits on a DER length-form boundary
+LENS_Q = [0, 1, 16, 33, 112, 240, 256, 65537]
 HASHES = ["SHA1", "SHA256", "SHA384", "SHA512"]
 MODES = ["nonce", "DH", "ECDH_P256", "ECDH_P384"]
 L0 = 364
